@@ -54,6 +54,9 @@ def gen_params(rng, idx, tier="quick", force=None):
     P["stagger"] = None
     if P["group"] and P["n_parts"] >= 2 and rng.random() < 0.3:
         P["stagger"] = {"leader_down_for": rng.choice([0.05, 0.2, 0.5, 1.0]), "offset_fetch_delay_p": rng.choice([0.5, 0.9])}
+    # replies of all brokers (OffsetFetch, ListOffsets of several leaders, first Fetch) arrive on a common lattice:
+    # lookups of several partitions complete in one pass of the fetcher / coordinator routines
+    P["reply_quantum"] = rng.choice([None, None, 0.01, 0.05])
     if force:
         P.update(force)
     return P
@@ -73,6 +76,9 @@ def run_history(P):
                                                              9: (0, P["offset_fetch_max_version"]),
                                                              1: (0, P["fetch_max_version"])})
     cl.create_topic(TOPIC, P["n_parts"])
+    if P.get("reply_quantum"):
+        net.quantum = P["reply_quantum"]
+        net.fragment = False
     if P.get("slow_node") is not None:
         slow_host = f"broker{P['slow_node']}"
         net.extra_delay = lambda direction, link: (P["slow_by"] if link is not None and link.host == slow_host else 0.0)
